@@ -1,391 +1,95 @@
 /-
   The full Future/ThreadPool micro-step system (`Model.lean`) simulates the closed ring system
-  (`Ring.lean`): as long as the pool has not been deleted (`(s.sigs 0).live = true`: the enqueued-signal of
-  the pool, destroyed only by `dFin`, is alive), the projection `proj s` of a reachable state is a
-  reachable state of `RingSys` with capacity `capOf cfg`.  Consequences: the facts of `RingLemmas` hold
-  for the ring of the pool together with the `push`/`pop` frames of all threads.
+  (`Ring.lean`): the projection `proj s` of every reachable state is a reachable state of `RingSys` with
+  capacity `capOf cfg`.  Consequences: the facts of `RingLemmas` hold for the ring of the pool together
+  with the `push`/`pop` frames of all threads.
 
-  Scope: the hypothesis `(s.sigs 0).live = true` excludes the states after `~ThreadPool` (`dFin`).
-  Removing it needs the join reasoning "all clients and all workers have finished when main runs dFin"
-  (not done here, see OPEN at the end).
+  Structure of the proof
+    SimRing1   generic shape of one micro-step (which threads change, ring frames stay on top, ...)
+    SimRing2   effect of a step on `proj` (ring micro-step / entering push or pop / nothing)
+    SimRing3   while `tp = false` no thread is inside pool code, so a lazily created pool starts clean
+    SimRingCore  invariant `SimInv`; simulation while the pool has not been deleted (`poolAlive`)
+    SimRing4/5 join reasoning: main passes `mJoin` only after all clients finished, hence after `dFin`
+               no pool is created again (`pool_alive : s.pool = some p → poolAlive s`)
+    SimRing    (this file) the unconditional statements
 -/
-import Nstd.Future.SimRing2
-import Nstd.Future.SimRing3
+import Nstd.Future.SimRing5
 namespace Nstd.Future
 
-/-! ### capacity -/
+/-- the full system simulates the ring system -/
+theorem reach_ring {cfg : Config} {s : State} (h : Reach cfg s) : RingReach (capOf cfg) (proj s) := by
+  cases hp : s.pool with
+  | none => exact reach_ring_noPool h hp
+  | some p => exact Alive.reach_ring h (pool_alive h hp)
 
-theorem ceilPow2Aux_pos (fuel p n : Nat) (hp : 0 < p) : 0 < ceilPow2Aux fuel p n := by
-  induction fuel generalizing p with
-  | zero => simpa [ceilPow2Aux] using hp
-  | succ k ih =>
-    simp only [ceilPow2Aux]
-    split
-    · exact hp
-    · exact ih (2 * p) (by omega)
-
-theorem ceilPow2_pos (n : Nat) : 0 < ceilPow2 n := ceilPow2Aux_pos 64 1 n (by omega)
-
-theorem capOf_pos (cfg : Config) : 0 < capOf cfg := by
-  simp only [capOf]; split <;> exact ceilPow2_pos _
-
-/-! ### the invariant -/
-
-/-- the pool has not been deleted: `dFin` is the only step that destroys signal 0 (`_enqueuedSignal`) -/
-def poolAlive (s : State) : Prop := (s.sigs 0).live = true
-
-structure SimInv (cfg : Config) (s : State) : Prop where
-  cfgEq : s.cfg = cfg
-  fresh : ∀ u, s.nthreads ≤ u → s.threads u = none
-  /-- ring frames (and `mInit`) occur only on top of a stack -/
-  ringTopOnly : ∀ t th, s.threads t = some th → NoSpec th.stack.tail
-  finEmpty : ∀ t th, s.threads t = some th → th.finished = true → th.stack = []
-  initOnly : ∀ t th, s.threads t = some th → th.stack.head? = some .mInit → s = State.init cfg
-  early : poolAlive s → s.tp = false → Early s
-  nonlazy : cfg.lazy = false → poolAlive s → s.tp = true ∨ s = State.init cfg
-  ringOk : poolAlive s → RingReach (capOf cfg) (proj s)
-
-theorem simInv_init (cfg : Config) : SimInv cfg (State.init cfg) := by
-  have hthr : ∀ t th, (State.init cfg).threads t = some th → t = 0 ∧ th = { stack := [Frame.mInit] } := by
-    intro t th h
-    simp only [State.init] at h
-    split at h
-    · next h0 => injection h with h; exact ⟨h0, h.symm⟩
-    · cases h
-  constructor
-  · rfl
-  · intro u hu
-    have : u ≠ 0 := by simp only [State.init] at hu; omega
-    simp only [State.init, this, if_false]
-  · intro t th h; obtain ⟨_, rfl⟩ := hthr t th h; exact noSpec_nil
-  · intro t th h hf; obtain ⟨_, rfl⟩ := hthr t th h; cases hf
-  · intro _ _ _ _; rfl
-  · intro _ _
-    constructor
-    · intro t th h; obtain ⟨_, rfl⟩ := hthr t th h
-      simp [allPre_cons, allPre_nil, prePool]
-    · intro p hp; simp [State.init] at hp
-  · intro _ _; exact Or.inr rfl
-  · intro _; exact RingReach.init
-
-/-! ### one step -/
-
-theorem step_inv {s s' : State} {t : Tid} {o : List String} (h : step s t = some (s', o)) :
-    ∃ th fr rest, s.threads t = some th ∧ th.stack = fr :: rest ∧ th.finished = false ∧
-      s' = (stepFrame s t th fr).1 := by
-  simp only [step] at h
-  split at h
-  · cases h
-  · next th hth =>
-    split at h
-    · cases h
-    · next fr rest hst =>
-      split at h
-      · cases h
-      · next hc =>
-        injection h with h
-        refine ⟨th, fr, rest, hth, hst, ?_, ?_⟩
-        · cases hf : th.finished
-          · rfl
-          · simp [hf] at hc
-        · rw [h]
-
-theorem init_thread {cfg : Config} {t : Tid} {th : Thread} {fr : Frame} {rest : List Frame}
-    (hth : (State.init cfg).threads t = some th) (hst : th.stack = fr :: rest) :
-    t = 0 ∧ fr = .mInit ∧ rest = [] ∧ th = { stack := [Frame.mInit] } := by
-  simp only [State.init] at hth
-  split at hth
-  · next h0 =>
-    injection hth with hth; subst hth
-    simp only [List.cons.injEq] at hst
-    exact ⟨h0, hst.1.symm, hst.2.symm, rfl⟩
-  · cases hth
-
-theorem plain_ringTop {fr : Frame} (rest : List Frame) (h : plain fr = true) : ringTop (fr :: rest) = none := by
-  cases fr <;> first | rfl | (simp [plain] at h)
-
-theorem frame_class (fr : Frame) :
-    plain fr = true ∨ ringy fr = true ∨ fr = .mInit ∨ (∃ c, fr = .cRdTp2 c) ∨ fr = .dFin := by
-  cases fr <;> simp [plain, ringy]
-
-theorem dFin_kills {s : State} {t : Tid} {th : Thread} :
-    ((stepFrame s t th .dFin).1.sigs 0).live = false := by
-  simp [stepFrame, setThread, destroySig, setSig, upd]
-
-theorem head?_ring {th : Thread} {pc : RingPc Job} (h : th.stack.head? = some (.ring pc)) :
-    ringPcOf th = some pc := by
-  rw [ringPcOf_eq]
-  cases hs : th.stack with
-  | nil => rw [hs] at h; cases h
-  | cons a l =>
-    rw [hs] at h; simp only [List.head?_cons, Option.some.injEq] at h; subst h; rfl
-
-/-- the projection after `mInit` (executed in the initial state only) -/
-theorem proj_mInit (cfg : Config) :
-    proj (stepFrame (State.init cfg) 0 { stack := [Frame.mInit] } .mInit).1 = RingSys.init (capOf cfg) := by
-  simp only [stepFrame]
-  by_cases hl : cfg.lazy = true
-  · have : (State.init cfg).cfg.lazy = true := hl
-    simp only [this, if_true]
-    rw [proj_setThread_poolNone _ _ rfl]; rfl
-  · have : (State.init cfg).cfg.lazy = false := by simpa [State.init] using hl
-    simp only [this, Bool.false_eq_true, if_false]
-    rw [proj_some (s := setThread _ _ _) (p := mkPool cfg.q cfg.minT cfg.maxT) rfl, pcsOf_setThread]
-    have hc : capOf cfg = ceilPow2 cfg.q := by simp [capOf, hl]
-    rw [hc]
-    simp only [RingSys.init, mkPool]
-    congr 1
-    funext u
-    by_cases hu : u = 0
-    · simp only [hu, if_true]; rfl
-    · simp only [hu, if_false, pcsOf, State.init]
-
-theorem tp_mInit (cfg : Config) (hl : cfg.lazy = false) :
-    (stepFrame (State.init cfg) 0 { stack := [Frame.mInit] } .mInit).1.tp = true := by
-  have : (State.init cfg).cfg.lazy = false := hl
-  simp only [stepFrame, this, Bool.false_eq_true, if_false]; rfl
-
-/-- the projection after `cRdTp2` while `tp = false`: a fresh pool and no thread inside `push`/`pop` -/
-theorem proj_cRdTp2_new {s : State} {t : Tid} {th : Thread} {c : Nat} (he : Early s) (htp : s.tp = false) :
-    proj (stepFrame s t th (.cRdTp2 c)).1 = RingSys.init (ceilPow2 0x100) := by
-  simp only [stepFrame, htp, Bool.false_eq_true, if_false]
-  rw [proj_some (s := setThread _ _ _) (p := mkPool 0x100 0 4) rfl, pcsOf_setThread]
-  simp only [RingSys.init, mkPool]
-  congr 1
-  funext u
-  by_cases hu : u = t
-  · simp only [hu, if_true]; rfl
-  · simp only [hu, if_false, pcsOf]
-    cases hthu : s.threads u with
-    | none => rfl
-    | some thu => exact (he.pre u thu hthu).ringTop
-
-theorem proj_cRdTp2_old {s : State} {t : Tid} {th : Thread} {c : Nat} {rest : List Frame}
-    (hth : s.threads t = some th) (hst : th.stack = .cRdTp2 c :: rest) (htp : s.tp = true) :
-    proj (stepFrame s t th (.cRdTp2 c)).1 = proj s := by
-  simp only [stepFrame, htp, if_true]
-  exact proj_setThread_same hth (by simp only [ringPcOf_eq, hst, ringTop])
-    (by simp only [ringPcOf_eq, Thread.cont, List.cons_append]; rfl)
-
-theorem simInv_step {cfg : Config} {s s' : State} {t : Tid} {o : List String}
-    (hI : SimInv cfg s) (h : step s t = some (s', o)) : SimInv cfg s' := by
-  obtain ⟨th, fr, rest, hth, hst, hfin, rfl⟩ := step_inv h
-  have hrest : NoSpec rest := by
-    have := hI.ringTopOnly t th hth
-    rw [hst] at this; exact this
-  have h1 := shape1 s t th fr rest hth hst hfin hrest
-  obtain ⟨th', hth', hns', hhd', hfe'⟩ := h1.self
-  have hcfg := hI.cfgEq
-  -- threads other than `t` in the new state
-  have hoth : ∀ u thu, u ≠ t → (stepFrame s t th fr).1.threads u = some thu →
-      s.threads u = some thu ∨ (thu.finished = false ∧ ∃ x, thu.stack = [.tStart, x] ∧ special x = false) := by
-    intro u thu hu hthu
-    rcases h1.others u hu with h2 | ⟨_, _, thw, x, h3, h4, h5, h6⟩
-    · left; rw [← h2]; exact hthu
-    · right; rw [hthu] at h3; injection h3 with h3; subst h3; exact ⟨h6, x, h4, h5⟩
-  have hlive : poolAlive (stepFrame s t th fr).1 → poolAlive s := h1.live
-  constructor
-  · rw [h1.cfg]; exact hcfg
-  · intro u hu
-    have hut : u ≠ t := by
-      intro hut; subst hut
-      have := hI.fresh u (Nat.le_trans h1.nth hu)
-      rw [hth] at this; cases this
-    rcases h1.others u hut with h2 | ⟨h3, h4, _⟩
-    · rw [h2]; exact hI.fresh u (Nat.le_trans h1.nth hu)
-    · have h3' : (u : Nat) = s.nthreads := h3
-      omega
-  · intro u thu hthu
-    by_cases hu : u = t
-    · subst hu; rw [hth'] at hthu; injection hthu with hthu; subst hthu; exact hns'
-    · rcases hoth u thu hu hthu with h2 | ⟨_, x, h3, h4⟩
-      · exact hI.ringTopOnly u thu h2
-      · rw [h3]; simp only [List.tail_cons, noSpec_cons, h4, noSpec_nil, and_self]
-  · intro u thu hthu hf
-    by_cases hu : u = t
-    · subst hu; rw [hth'] at hthu; injection hthu with hthu; subst hthu; exact hfe' hf
-    · rcases hoth u thu hu hthu with h2 | ⟨h3, _⟩
-      · exact hI.finEmpty u thu h2 hf
-      · rw [h3] at hf; cases hf
-  · intro u thu hthu hhd
-    exfalso
-    by_cases hu : u = t
-    · subst hu; rw [hth'] at hthu; injection hthu with hthu; subst hthu; exact hhd' hhd
-    · rcases hoth u thu hu hthu with h2 | ⟨_, x, h3, _⟩
-      · have hs := hI.initOnly u thu h2 hhd
-        rw [hs] at h2 hth
-        have hu0 : u = 0 := by
-          simp only [State.init] at h2
-          split at h2
-          · assumption
-          · cases h2
-        exact hu (hu0.trans (init_thread hth hst).1.symm)
-      · rw [h3] at hhd; simp at hhd
-  · intro hl' htp'
-    have hl := hlive hl'
-    have htp : s.tp = false := by
-      cases h2 : s.tp
-      · rfl
-      · have := h1.tp hl' h2; rw [htp'] at this; cases this
-    have he := hI.early hl htp
-    have hpre : AllPre (fr :: rest) := by rw [← hst]; exact he.pre t th hth
-    have h3 := shape3 s t th fr rest hth hst hpre he.ctxs htp htp' hl'
-    constructor
-    · intro u thu hthu
-      by_cases hu : u = t
-      · subst hu
-        obtain ⟨th3, h4, h5⟩ := h3.self
-        rw [h4] at hthu; injection hthu with hthu; subst hthu; exact h5
-      · rcases h3.others u hu with h4 | ⟨thw, h4, h5⟩
-        · rw [h4] at hthu; exact he.pre u thu hthu
-        · rw [h4] at hthu; injection hthu with hthu; subst hthu; exact h5
-    · exact h3.ctxs
-  · intro hlz hl'
-    have hl := hlive hl'
-    rcases hI.nonlazy hlz hl with h2 | h2
-    · exact Or.inl (h1.tp hl' h2)
-    · left
-      subst h2
-      obtain ⟨rfl, rfl, rfl, rfl⟩ := init_thread hth hst
-      exact tp_mInit cfg hlz
-  · intro hl'
-    have hl := hlive hl'
-    have hR := hI.ringOk hl
-    rcases frame_class fr with hp | hr | rfl | ⟨c, rfl⟩ | rfl
-    · have h2 := shape2 s t th fr rest hth hst hrest hp
-      have hpc : ringPcOf th = none := by rw [ringPcOf_eq, hst]; exact plain_ringTop rest hp
-      rw [proj_plain h1 h2 hI.fresh hth hpc]; exact hR
-    · rcases sim_ringy hth hst hrest hr with ⟨a, ha⟩ | ha
-      · exact RingReach.step t a hR ha
-      · rw [ha]; exact hR
-    · have hs := hI.initOnly t th hth (by rw [hst]; rfl)
-      subst hs
-      obtain ⟨rfl, _, rfl, rfl⟩ := init_thread hth hst
-      rw [proj_mInit]; exact RingReach.init
-    · cases htp : s.tp
-      · have hlazy : cfg.lazy = true := by
-          cases hlz : cfg.lazy
-          · rcases hI.nonlazy hlz hl with h2 | h2
-            · rw [htp] at h2; cases h2
-            · subst h2
-              have := (init_thread hth hst).2.1; cases this
-          · rfl
-        rw [proj_cRdTp2_new (hI.early hl htp) htp]
-        have : capOf cfg = ceilPow2 0x100 := by simp only [capOf, hlazy, if_true]
-        rw [this]; exact RingReach.init
-      · rw [proj_cRdTp2_old hth hst htp]; exact hR
-    · have := dFin_kills (s := s) (t := t) (th := th)
-      rw [poolAlive, this] at hl'; cases hl'
-
-/-! ### reachable states -/
-
-theorem reach_inv {cfg : Config} {s : State} (h : Reach cfg s) : SimInv cfg s := by
-  induction h with
-  | init => exact simInv_init cfg
-  | step t _ hs ih => exact simInv_step ih hs
-
-theorem reach_cfg {cfg : Config} {s : State} (h : Reach cfg s) : s.cfg = cfg := (reach_inv h).cfgEq
-
-/-- the full system simulates the ring system, as long as the pool has not been deleted -/
-theorem reach_ring {cfg : Config} {s : State} (h : Reach cfg s) (hl : poolAlive s) :
-    RingReach (capOf cfg) (proj s) := (reach_inv h).ringOk hl
-
-/-- ... and trivially whenever there is no pool -/
-theorem reach_ring_noPool {cfg : Config} {s : State} (h : Reach cfg s) (hp : s.pool = none) :
-    RingReach (capOf cfg) (proj s) := by
-  rw [proj_none hp, reach_cfg h]; exact RingReach.init
-
-theorem ring_facts {cfg : Config} {s : State} {p : Pool} (h : Reach cfg s) (hl : poolAlive s)
-    (_hp : s.pool = some p) : ∃ cap, 0 < cap ∧ RingReach cap (proj s) :=
-  ⟨capOf cfg, capOf_pos cfg, reach_ring h hl⟩
-
-/-- ring frames occur only on top of a stack -/
-theorem ring_only_top {cfg : Config} {s : State} {t : Tid} {th : Thread} (h : Reach cfg s)
-    (hth : s.threads t = some th) (pc : RingPc Job) : Frame.ring pc ∉ th.stack.tail := by
-  intro hm
-  have := (reach_inv h).ringTopOnly t th hth _ hm
-  simp [special] at this
-
-/-- a finished thread has an empty stack -/
-theorem finished_stack_nil {cfg : Config} {s : State} {t : Tid} {th : Thread} (h : Reach cfg s)
-    (hth : s.threads t = some th) (hf : th.finished = true) : th.stack = [] :=
-  (reach_inv h).finEmpty t th hth hf
+theorem ring_facts {cfg : Config} {s : State} {p : Pool} (h : Reach cfg s) (_hp : s.pool = some p) :
+    ∃ cap, 0 < cap ∧ RingReach cap (proj s) :=
+  ⟨capOf cfg, capOf_pos cfg, reach_ring h⟩
 
 /-! ### the ring facts lifted to the full system -/
 
 section lifted
 variable {cfg : Config} {s : State} {p : Pool}
 
-theorem proj_ring (hp : s.pool = some p) : (proj s).ring = p.ring := by rw [proj_some hp]
+theorem full_cap (h : Reach cfg s) (hp : s.pool = some p) : p.ring.cap = capOf cfg :=
+  Alive.full_cap h (pool_alive h hp) hp
 
-theorem proj_pcs (hp : s.pool = some p) {t : Tid} {th : Thread} (hth : s.threads t = some th) :
-    (proj s).pcs t = ringPcOf th := by
-  rw [proj_some hp]; simp only [pcsOf, hth]
+theorem full_popLog_nodup (h : Reach cfg s) (hp : s.pool = some p) :
+    (p.ring.popLog.map Prod.fst).Nodup :=
+  Alive.full_popLog_nodup h (pool_alive h hp) hp
 
-theorem full_cap (h : Reach cfg s) (hl : poolAlive s) (hp : s.pool = some p) : p.ring.cap = capOf cfg := by
-  have := ring_cap_const (capOf_pos cfg) (reach_ring h hl); rwa [proj_ring hp] at this
+theorem full_popLog_sound (h : Reach cfg s) (hp : s.pool = some p) {x : Nat} {d : Option Job}
+    (hm : (x, d) ∈ p.ring.popLog) : x < p.ring.pushLog.length ∧ d = p.ring.pushLog[x]? :=
+  Alive.full_popLog_sound h (pool_alive h hp) hp hm
 
-theorem full_popLog_nodup (h : Reach cfg s) (hl : poolAlive s) (hp : s.pool = some p) :
-    (p.ring.popLog.map Prod.fst).Nodup := by
-  have := ring_popLog_nodup (capOf_pos cfg) (reach_ring h hl); rwa [proj_ring hp] at this
-
-theorem full_popLog_sound (h : Reach cfg s) (hl : poolAlive s) (hp : s.pool = some p) {x : Nat} {d : Option Job}
-    (hm : (x, d) ∈ p.ring.popLog) : x < p.ring.pushLog.length ∧ d = p.ring.pushLog[x]? := by
-  have := ring_popLog_sound (capOf_pos cfg) (reach_ring h hl) (x := x) (d := d) (by rwa [proj_ring hp])
-  rwa [proj_ring hp] at this
-
-theorem full_popRel_payload (h : Reach cfg s) (hl : poolAlive s) (hp : s.pool = some p) {t : Tid} {th : Thread}
+theorem full_popRel_payload (h : Reach cfg s) (hp : s.pool = some p) {t : Tid} {th : Thread}
     {x : Nat} {d : Option Job} (hth : s.threads t = some th)
     (htop : th.stack.head? = some (.ring (.popRel x d))) :
-    x < p.ring.pushLog.length ∧ d = p.ring.pushLog[x]? := by
-  have hpc : (proj s).pcs t = some (.popRel x d) := by rw [proj_pcs hp hth]; exact head?_ring htop
-  have := ring_pop_reads_pushed (capOf_pos cfg) (reach_ring h hl) hpc
-  rwa [proj_ring hp] at this
+    x < p.ring.pushLog.length ∧ d = p.ring.pushLog[x]? :=
+  Alive.full_popRel_payload h (pool_alive h hp) hp hth htop
 
 /-- hence the "pop read a raw slot" fault never fires: the payload read is a pushed job -/
-theorem full_popRel_some (h : Reach cfg s) (hl : poolAlive s) (hp : s.pool = some p) {t : Tid} {th : Thread}
+theorem full_popRel_some (h : Reach cfg s) (hp : s.pool = some p) {t : Tid} {th : Thread}
     {x : Nat} {d : Option Job} (hth : s.threads t = some th)
-    (htop : th.stack.head? = some (.ring (.popRel x d))) : ∃ j, d = some j := by
-  obtain ⟨h1, h2⟩ := full_popRel_payload h hl hp hth htop
-  exact ⟨p.ring.pushLog[x], by rw [h2, List.getElem?_eq_getElem h1]⟩
+    (htop : th.stack.head? = some (.ring (.popRel x d))) : ∃ j, d = some j :=
+  Alive.full_popRel_some h (pool_alive h hp) hp hth htop
 
-theorem full_popData_slot (h : Reach cfg s) (hl : poolAlive s) (hp : s.pool = some p) {t : Tid} {th : Thread}
+theorem full_popData_slot (h : Reach cfg s) (hp : s.pool = some p) {t : Tid} {th : Thread}
     {x : Nat} (hth : s.threads t = some th) (htop : th.stack.head? = some (.ring (.popData x))) :
-    x < p.ring.pushLog.length ∧ (p.ring.slots (x % p.ring.cap)).data = p.ring.pushLog[x]? := by
-  have hpc : (proj s).pcs t = some (.popData x) := by rw [proj_pcs hp hth]; exact head?_ring htop
-  have := ring_popData_slot (capOf_pos cfg) (reach_ring h hl) hpc
-  rw [proj_ring hp, ← full_cap h hl hp] at this
-  exact ⟨this.1, this.2.1⟩
+    x < p.ring.pushLog.length ∧ (p.ring.slots (x % p.ring.cap)).data = p.ring.pushLog[x]? :=
+  Alive.full_popData_slot h (pool_alive h hp) hp hth htop
 
-theorem full_claim_unique_pop (h : Reach cfg s) (hl : poolAlive s) (hp : s.pool = some p) {t u : Tid}
+/-- two different threads cannot both hold the same pop ticket (be at `popData`/`popRel` frames with it) -/
+theorem full_claim_unique_pop (h : Reach cfg s) (hp : s.pool = some p) {t u : Tid}
     {tht thu : Thread} {pt pu : RingPc Job} {x : Nat} (htu : t ≠ u)
     (hth : s.threads t = some tht) (hthu : s.threads u = some thu)
     (htop : tht.stack.head? = some (.ring pt)) (hutop : thu.stack.head? = some (.ring pu))
-    (hpt : popTicket pt = some x) (hpu : popTicket pu = some x) : False := by
-  have h1 : (proj s).pcs t = some pt := by rw [proj_pcs hp hth]; exact head?_ring htop
-  have h2 : (proj s).pcs u = some pu := by rw [proj_pcs hp hthu]; exact head?_ring hutop
-  exact ring_claim_unique_pop (capOf_pos cfg) (reach_ring h hl) htu h1 h2 hpt hpu
+    (hpt : popTicket pt = some x) (hpu : popTicket pu = some x) : False :=
+  Alive.full_claim_unique_pop h (pool_alive h hp) hp htu hth hthu htop hutop hpt hpu
 
-theorem full_claim_unique_push (h : Reach cfg s) (hl : poolAlive s) (hp : s.pool = some p) {t u : Tid}
+theorem full_claim_unique_push (h : Reach cfg s) (hp : s.pool = some p) {t u : Tid}
     {tht thu : Thread} {pt pu : RingPc Job} {x : Nat} (htu : t ≠ u)
     (hth : s.threads t = some tht) (hthu : s.threads u = some thu)
     (htop : tht.stack.head? = some (.ring pt)) (hutop : thu.stack.head? = some (.ring pu))
-    (hpt : pushTicket pt = some x) (hpu : pushTicket pu = some x) : False := by
-  have h1 : (proj s).pcs t = some pt := by rw [proj_pcs hp hth]; exact head?_ring htop
-  have h2 : (proj s).pcs u = some pu := by rw [proj_pcs hp hthu]; exact head?_ring hutop
-  exact ring_claim_unique_push (capOf_pos cfg) (reach_ring h hl) htu h1 h2 hpt hpu
+    (hpt : pushTicket pt = some x) (hpu : pushTicket pu = some x) : False :=
+  Alive.full_claim_unique_push h (pool_alive h hp) hp htu hth hthu htop hutop hpt hpu
 
-theorem full_pushLog_len (h : Reach cfg s) (hl : poolAlive s) (hp : s.pool = some p) :
-    p.ring.pushLog.length = p.ring.tail := by
-  have := ring_pushLog_length (capOf_pos cfg) (reach_ring h hl); rwa [proj_ring hp] at this
+theorem full_pushLog_len (h : Reach cfg s) (hp : s.pool = some p) :
+    p.ring.pushLog.length = p.ring.tail :=
+  Alive.full_pushLog_len h (pool_alive h hp) hp
 
-theorem full_head_le_tail (h : Reach cfg s) (hl : poolAlive s) (hp : s.pool = some p) :
-    p.ring.head ≤ p.ring.tail := by
-  have := ring_head_le_tail (capOf_pos cfg) (reach_ring h hl); rwa [proj_ring hp] at this
+theorem full_head_le_tail (h : Reach cfg s) (hp : s.pool = some p) : p.ring.head ≤ p.ring.tail :=
+  Alive.full_head_le_tail h (pool_alive h hp) hp
 
-theorem full_tail_le_head_cap (h : Reach cfg s) (hl : poolAlive s) (hp : s.pool = some p) :
-    p.ring.tail ≤ p.ring.head + capOf cfg := by
-  have := ring_tail_le_head_cap (capOf_pos cfg) (reach_ring h hl); rwa [proj_ring hp] at this
+theorem full_tail_le_head_cap (h : Reach cfg s) (hp : s.pool = some p) :
+    p.ring.tail ≤ p.ring.head + capOf cfg :=
+  Alive.full_tail_le_head_cap h (pool_alive h hp) hp
+
+/-- any further fact about reachable ring states transfers: the ring pc of a thread is its top frame -/
+theorem full_pcs (hp : s.pool = some p) {t : Tid} {th : Thread} (hth : s.threads t = some th) :
+    (proj s).pcs t = ringPcOf th := Alive.proj_pcs hp hth
+
+theorem full_ring (hp : s.pool = some p) : (proj s).ring = p.ring := Alive.proj_ring hp
 
 end lifted
 
